@@ -366,5 +366,7 @@ func verifConnIsolation(prop string) {
 	}
 	verifAssert(len(b1.body) == 1 && len(b2.body) == 1 && b1.body[0] == b2.body[0], prop+".conn-isolation-same-message")
 	verifAssert(verifGoroutinesAlive() == 0, prop+".conn-isolation-no-goroutine-left")
-	verifReach(prop+".conn-isolation-end")
+	verifReach(prop + ".conn-isolation-end")
 }
+func verif_C08_failed_starttls_stub() { verifFailedStartTLS("C08") }
+func verif_C08_starttls_close_stub()  { verifStartTLSClose("C08") }
